@@ -172,6 +172,8 @@ class ScriptDriver:
         self.falsy_factories = 0
         self.reactions = reactive      # budget of writes/closes made from inside connectionMade/dataReceived/connectionLost
         self.reactions_done = 0
+        self.escaping = 0.0            # share of the errors met inside connectionLost() that the application lets escape
+        self.escaped = 0
         self.late_write_results = []   # (proto name, exception type or None) for writes attempted from connectionLost
         self.pauses = pauses           # budget of application-level pauseProducing() calls (each is resumed later)
         self.pauses_done = 0
@@ -214,6 +216,10 @@ class ScriptDriver:
                 self.late_write_results.append((p.name, None))
             except Exception as e:
                 self.late_write_results.append((p.name, type(e).__name__))
+                if self.escaping and self.rng.random() < self.escaping:
+                    # a protocol that says goodbye from connectionLost() and does not expect the error: it escapes
+                    self.escaped += 1
+                    raise
             return
         if getattr(p, "closed_local", False):
             return
